@@ -463,11 +463,34 @@ fn check_faulted(
       let loaded_before = first_call(&o).is_some_and(|i| i < faulted_at);
       if always || !loaded_before {
         dependent.extend(upstream_of(&base.graph, &o));
+        // everything behind a redirect chain starting at the named specifier
+        // is now first requested in the faulted request's context (root /
+        // dynamic leniency for non-JS media types is inherited)
+        let mut cur = o.clone();
+        let mut hops = 0;
+        while let Some(next) = g.redirects.get(&url(&cur)).or_else(|| base.graph.redirects.get(&url(&cur))) {
+          dependent.extend(upstream_of(&base.graph, next.as_str()));
+          cur = next.to_string();
+          hops += 1;
+          if hops > 64 {
+            break;
+          }
+        }
       }
     }
   }
   if is_registry && plan.iter().any(|(_, n)| n == "imports-unknown") {
     // may introduce new jsr requirements that change unification
+    skip_independence = true;
+  }
+  if is_registry
+    && serde_json::to_string(&base.graph.packages).unwrap_or_default() != serde_json::to_string(&g.packages).unwrap_or_default()
+  {
+    // which version a requirement resolves to depends on the versions
+    // already in the graph (resolve_version prefers them), so a fault that
+    // removes or adds a package version legitimately changes other
+    // requirement entries
+    acc.count("independence_skipped_package_versions_changed");
     skip_independence = true;
   }
   if !skip_independence {
@@ -525,7 +548,12 @@ fn check_faulted(
         Some(n) if n.0 != b.0 => {
           // first-requester context may flip JSON/unknown entries
           acc.violation(
-            format!("independent-entry-changed/{}-to-{}/{}", b.0, n.0, if plan.len() == 1 { kinds_at(None) } else { "combination".into() }),
+            format!(
+              "independent-entry-changed/{}-to-{}/{}",
+              b.0.split(':').take(2).collect::<Vec<_>>().join(":"),
+              n.0.split(':').take(2).collect::<Vec<_>>().join(":"),
+              if plan.len() == 1 { kinds_at(None) } else { "combination".into() }
+            ),
             format!("{}: {:?} -> {:?}", spec, b, n),
             w(json!({})),
           );
@@ -749,8 +777,8 @@ pub fn run(tier: Tier, seed: u64) -> i32 {
   for f in ["missing", "err", "checksum-err", "redirect-self", "external", "unparsable", "undecodable-charset", "vmeta:exports-unjoinable", "meta:invalid-json"] {
     rep.floor(&format!("fault:{}", f), 50);
   }
-  let n_g = tier.pick(120, 3000);
-  let n_r = tier.pick(60, 1500);
+  let n_g = tier.pick(720, 18000);
+  let n_r = tier.pick(360, 9000);
   let mut acc = par_run(n_g, |i, acc| one_world(i, seed, tier, acc, false));
   let acc2 = par_run(n_r, |i, acc| one_world(i, seed, tier, acc, true));
   acc.merge(acc2);
